@@ -530,6 +530,7 @@ def run(R):
     roots, allm = diag_closure(R)
     diag_purity(R, ro, allm, "C20.DIAG-PURE")
     diag_conversions(R, ro, "C20.DIAG-SAFE")
+    common.typed_stack_elements(R, ro, "C20.DIAG-SAFE")
     dump_bounded(R, ro, "C20.DUMP-BOUNDED")
     perf_record_ready(R, ro, "C20.PERF-RECORD")
     # diagnostic callees defined in the repository are themselves diagnostic-only
